@@ -13,6 +13,8 @@ fn reset_indices<const N: usize>(rig: &mut Rig<N>, ctx: &mut Ctx, v: u16) {
     rig.q.verif_set_indices(v);
     hal::dev_write_u16(rig.a.dev + 2, v).unwrap();
     rig.avail_idx = v; rig.last_used = v; rig.dev_used_idx = v;
+    // the store-level monitor counts entries from the (new) starting index
+    C02.with(|c| if let Some(st) = c.borrow_mut().as_mut() { st.start = v; st.next_seq = 0; st.cursor_seq = 0; st.entries.clear(); st.inprogress = None; });
     ctx.tr.line(101, &[v as u128], &[]);
 }
 
@@ -63,6 +65,8 @@ fn directed<const N: usize>(ctx: &mut Ctx, flags: u8, cases: u64) {
 fn cosim<const N: usize>(ctx: &mut Ctx, flags: u8, start: u16, policy: Policy, rounds: usize) {
     let event_idx = flags & 2 != 0;
     let mut rig = match Rig::<N>::new(ctx, flags & 1 != 0, event_idx, false, start) { Some(r) => r, None => return };
+    // submissions go through add_notify_wait_pop here, not through the rig: the store-level monitor is off
+    C02.with(|c| *c.borrow_mut() = None);
     let mut dev = GenDev { a: rig.a, seen: start, used: start, event_idx, served: 0 };
     dev.service();
     // a polling device suppresses notifications; a notify-driven one asks for them
